@@ -80,6 +80,16 @@ type c14Session struct {
 // c14Retry: build sessions whose builders went through an abandoned first attempt.
 var c14Retry bool
 
+var c14TableKeys = map[string]*gabikeys.PublicKey{}
+
+func c14TableKey(k *vfKey) *gabikeys.PublicKey {
+	id := vfKeyID(k.Pk)
+	if c14TableKeys[id] == nil {
+		c14TableKeys[id] = vfFreshPk(k)
+	}
+	return c14TableKeys[id]
+}
+
 func c14Build(slots []c14Slot, part map[string]bool, issig bool) (*c14Session, error) {
 	s := &c14Session{slots: slots, part: part, userSec: vfTag("c14-user"), kssSec: vfTag("c14-kss"), keys: map[string]*gabikeys.PublicKey{}, issig: issig}
 	for i, sl := range slots {
@@ -87,7 +97,11 @@ func c14Build(slots []c14Slot, part map[string]bool, issig bool) (*c14Session, e
 		var kssP *big.Int
 		if part[sl.key] {
 			kssP = new(big.Int).Exp(k.Pk.R[0], s.kssSec, k.Pk.N)
-			s.keys[vfKeyID(k.Pk)] = k.Pk
+			// the key table of the keyshare protocol holds its own key objects (parsed from the party's own
+			// configuration): equal in value to, but not the same objects as, the keys inside the builders
+			if s.keys[vfKeyID(k.Pk)] == nil {
+				s.keys[vfKeyID(k.Pk)] = c14TableKey(k)
+			}
 			s.labels = append(s.labels, "kss")
 		} else {
 			s.labels = append(s.labels, "")
@@ -181,7 +195,7 @@ func c14KeyTuples(n int, keys []string) [][]string {
 func TestVerifC14Honest(t *testing.T) {
 	r := vkit.Start(t, "C14", "honest-exchange", 240*time.Second, 1500*time.Second)
 	defer r.Finish()
-	r.Rule = "builder lists of length 1..L over {disclosure, issuance} + fixed lists with non-revocation / range / random-blind members x every key tuple over {k1024a,k1024b,k2048} x every non-empty subset of the used keys participating x {disclosure, signature session (lists without issuance)}; every third scenario as a second attempt on builders that already went through an abandoned commitment request; non-trivial = distinct scenario; oracle: no error, ProofP.C == user's challenge, the merged list verifies with labels (participating members 'kss', others ''), for total secret = user + server share"
+	r.Rule = "builder lists of length 1..L over {disclosure, issuance} + fixed lists with non-revocation / range / random-blind members x every key tuple over {k1024a,k1024b,k2048} x every non-empty subset of the used keys participating (the key table holds key objects equal in value to, but distinct from, the builders' keys) x {disclosure, signature session (lists without issuance)}; every third scenario as a second attempt on builders that already went through an abandoned commitment request; non-trivial = distinct scenario; oracle: no error, ProofP.C == user's challenge, the merged list verifies with labels (participating members 'kss', others ''), for total secret = user + server share"
 	vfInstallEnv(t, "C14/honest", r.Seed)
 	L := vkit.Pick(3, 4)
 	keys := []string{"k1024a", "k1024b", "k2048"}
